@@ -6,21 +6,21 @@ From Coq Require Import ZifyBool.
 Ltac Zify.zify_post_hook ::= Z.to_euclidean_division_equations.
 
 (* result of a run: normal return with the fence restored *)
-Definition RT {A} (r : result (A * pst)) (mx : option Z) (Q : A -> Z -> Prop) : Prop :=
-  exists a p', r = Ok (a, (p', mx)) /\ Q a p'.
+Definition RT {A} (ts : list token) (r : result (A * pst)) (mx : option Z) (Q : A -> Z -> Prop) : Prop :=
+  exists a p', r = Ok (a, (p', mx)) /\ p' <= zlen ts /\ Q a p'.
 
-Lemma RT_ok {A} (a : A) p' mx (Q : A -> Z -> Prop) : Q a p' -> RT (Ok (a, (p', mx))) mx Q.
-Proof. intros H. exists a, p'. split; [reflexivity | exact H]. Qed.
+Lemma RT_ok {A} ts (a : A) p' mx (Q : A -> Z -> Prop) : p' <= zlen ts -> Q a p' -> RT ts (Ok (a, (p', mx))) mx Q.
+Proof. intros Hl H. exists a, p'. split; [reflexivity | split; [exact Hl | exact H]]. Qed.
 
-Lemma RT_bind {A B} (m : M A) (f : A -> M B) st mx (Q : A -> Z -> Prop) (Q' : B -> Z -> Prop) :
-  RT (m st) mx Q -> (forall a p', Q a p' -> RT (f a (p', mx)) mx Q') -> RT (bindM m f st) mx Q'.
+Lemma RT_bind {A B} ts (m : M A) (f : A -> M B) st mx (Q : A -> Z -> Prop) (Q' : B -> Z -> Prop) :
+  RT ts (m st) mx Q -> (forall a p', p' <= zlen ts -> Q a p' -> RT ts (f a (p', mx)) mx Q') -> RT ts (bindM m f st) mx Q'.
 Proof.
-  intros (a & p' & E & H) Hf. rewrite (bind_ok _ _ _ _ _ E). apply Hf, H.
+  intros (a & p' & E & Hl & H) Hf. rewrite (bind_ok _ _ _ _ _ E). apply Hf; assumption.
 Qed.
 
-Lemma RT_conseq {A} (r : result (A * pst)) mx (Q Q' : A -> Z -> Prop) :
-  RT r mx Q -> (forall a p', Q a p' -> Q' a p') -> RT r mx Q'.
-Proof. intros (a & p' & E & H) HQ. exists a, p'. split; [exact E | apply HQ, H]. Qed.
+Lemma RT_conseq {A} ts (r : result (A * pst)) mx (Q Q' : A -> Z -> Prop) :
+  RT ts r mx Q -> (forall a p', p' <= zlen ts -> Q a p' -> Q' a p') -> RT ts r mx Q'.
+Proof. intros (a & p' & E & Hl & H) HQ. exists a, p'. split; [exact E | split; [exact Hl | apply HQ; assumption]]. Qed.
 
 Definition isnode (t : tree) (p' : Z) : Prop := exists tag s fs, t = Node tag s p' false fs.
 
@@ -50,6 +50,8 @@ Definition g_ftail (n : nat) (r : list tree) (s : stream) : option stream :=
       s <~ (match sym ","%bs c s with Some s => Some s | None => sym ";"%bs c s end) ;;
       g_fields n r' s
   end.
+
+Definition is_kwt (x : tree) : bool := match x with Kw _ => true | _ => false end.
 
 Definition nosemi (l : list tree) : Prop := match l with Kw _ :: _ => False | _ => True end.
 
@@ -234,7 +236,7 @@ Local Notation CTXL := (CTXL ts).
 (* ---------------------------------------------------------------- the statements *)
 Definition exp_ok (Gd : Z -> Prop) (m : M tree) : Prop :=
   forall p mx n items s', Gd p -> g_chain n true true items (SS p) = Some s' -> CTXL items mx -> follow fexp mx s' ->
-  RT (m (p, mx)) mx (fun t p' => SS p' = s' /\ p < p' /\ ditems items t = true /\
+  RT ts (m (p, mx)) mx (fun t p' => SS p' = s' /\ p < p' /\ ditems items t = true /\
                                   (forall x, items = [x] -> den x t = true) /\ isnode t p' /\ exp_shape t).
 
 Definition exp_none (Gd : Z -> Prop) (m : M tree) : Prop :=
@@ -243,64 +245,64 @@ Definition exp_none (Gd : Z -> Prop) (m : M tree) : Prop :=
 Definition binop_ok (Gd : Z -> Prop) (m : tree -> M tree) : Prop :=
   forall first p mx n items s', Gd p -> g_chain n false true items (SS p) = Some s' -> CTXL items mx ->
   follow fexp mx s' -> isnode first p -> exp_shape first ->
-  RT (m first (p, mx)) mx (fun t p' => SS p' = s' /\ p <= p' /\
+  RT ts (m first (p, mx)) mx (fun t p' => SS p' = s' /\ p <= p' /\
        (exists ys, flat_exp (view t) = flat_exp (view first) ++ ys /\ all2d items ys = true) /\
        (items = [] -> t = first) /\ isnode t p' /\ exp_shape t).
 
 Definition chunk_ok (Gd : Z -> Prop) (m : M tree) : Prop :=
   forall p mx n g s', Gd p -> g_chunk n g (SS p) = Some s' -> CTX g mx -> follow fblock mx s' ->
-  RT (m (p, mx)) mx (fun t p' => SS p' = s' /\ p <= p' /\ den g t = true /\
+  RT ts (m (p, mx)) mx (fun t p' => SS p' = s' /\ p <= p' /\ den g t = true /\
                                   exists fs, t = Node tChunk p p' false [Lst fs]).
 
 Definition semis_ok (Gd : Z -> Prop) (m : M (list tree)) : Prop :=
   forall p mx l s', Gd p -> g_semis l (SS p) = Some s' -> CTXL l mx -> follow (nomatch [psym ";"%bs]) mx s' ->
-  RT (m (p, mx)) mx (fun tl p' => SS p' = s' /\ p <= p' /\ views tl = []).
+  RT ts (m (p, mx)) mx (fun tl p' => SS p' = s' /\ p <= p' /\ views tl = []).
 
 Definition semis_stats_ok (Gd : Z -> Prop) (m : M (list tree)) : Prop :=
   forall p mx n l s', Gd p -> g_stats n l (SS p) = Some s' -> CTXL l mx -> follow (nomatch [psym ";"%bs]) mx s' ->
-  RT (m (p, mx)) mx (fun tl p' => p <= p' /\ views tl = [] /\
-       exists ks rest n', l = ks ++ rest /\ forallb is_hidden ks = true /\
+  RT ts (m (p, mx)) mx (fun tl p' => p <= p' /\ views tl = [] /\
+       exists ks rest n', l = ks ++ rest /\ forallb is_kwt ks = true /\
                           g_stats n' rest (SS p') = Some s' /\ nosemi rest).
 
 Definition stats_ok (Gd : Z -> Prop) (m : M (list tree)) : Prop :=
   forall p mx n l s', Gd p -> g_stats n l (SS p) = Some s' -> CTXL l mx -> pguard true l = true ->
   follow fblock mx s' ->
-  RT (m (p, mx)) mx (fun tl p' => p <= p' /\
+  RT ts (m (p, mx)) mx (fun tl p' => p <= p' /\
        exists l1 l2 n', l = l1 ++ l2 /\ all2v l1 tl = true /\ g_stats n' l2 (SS p') = Some s' /\
                         (l2 = [] \/ exists x r, l2 = x :: r /\ is_tag x tStatReturn = true)).
 
 Definition namelist_loop_ok (Gd : Z -> Prop) (m : M (list tree)) : Prop :=
   forall p mx l s', Gd p -> sep_tail (tokc CName) (sym ","%bs) l (SS p) = Some s' -> CTXL l mx -> nl_stop mx s' ->
-  RT (m (p, mx)) mx (fun tl p' => SS p' = s' /\ p <= p' /\ all2v l tl = true).
+  RT ts (m (p, mx)) mx (fun tl p' => SS p' = s' /\ p <= p' /\ all2v l tl = true).
 
 Definition funcname_loop_ok (Gd : Z -> Prop) (m : M (list tree)) : Prop :=
   forall p mx l s', Gd p -> sep_tail (tokc CName) (sym "."%bs) l (SS p) = Some s' -> CTXL l mx ->
   follow (nomatch [psym "."%bs]) mx s' ->
-  RT (m (p, mx)) mx (fun tl p' => SS p' = s' /\ p <= p' /\ all2v l tl = true).
+  RT ts (m (p, mx)) mx (fun tl p' => SS p' = s' /\ p <= p' /\ all2v l tl = true).
 
 Definition explist_loop_ok (Gd : Z -> Prop) (m : M (list tree)) : Prop :=
   forall p mx n l s', Gd p -> sep_tail (g_exp n) (sym ","%bs) l (SS p) = Some s' -> CTXL l mx -> follow fexpl mx s' ->
-  RT (m (p, mx)) mx (fun tl p' => SS p' = s' /\ p <= p' /\ all2v l tl = true).
+  RT ts (m (p, mx)) mx (fun tl p' => SS p' = s' /\ p <= p' /\ all2v l tl = true).
 
 Definition varlist_loop_ok (Gd : Z -> Prop) (m : M (list tree)) : Prop :=
   forall p mx n l s', Gd p -> sep_tail (g_var n) (sym ","%bs) l (SS p) = Some s' -> CTXL l mx ->
   follow (anyof gassign) mx s' ->
-  RT (m (p, mx)) mx (fun tl p' => SS p' = s' /\ p <= p' /\ all2v l tl = true).
+  RT ts (m (p, mx)) mx (fun tl p' => SS p' = s' /\ p <= p' /\ all2v l tl = true).
 
 Definition fields_loop_ok (Gd : Z -> Prop) (m : M (list tree)) : Prop :=
   forall p mx n l s', Gd p -> g_ftail n l (SS p) = Some s' -> CTXL l mx -> follow (anyof [psym "}"%bs]) mx s' ->
-  RT (m (p, mx)) mx (fun tl p' => SS p' = s' /\ p <= p' /\ all2v l tl = true).
+  RT ts (m (p, mx)) mx (fun tl p' => SS p' = s' /\ p <= p' /\ all2v l tl = true).
 
 Definition elseif_loop_ok (Gd : Z -> Prop) (m : M (list tree)) : Prop :=
   forall p mx n l s', Gd p -> g_elseifs n l (SS p) = Some s' -> CTXL l mx -> follow (anyof [pkw "end"%bs]) mx s' ->
-  RT (m (p, mx)) mx (fun tl p' => p <= p' /\
+  RT ts (m (p, mx)) mx (fun tl p' => p <= p' /\
        exists l1 l2 n', l = l1 ++ l2 /\ all2v l1 tl = true /\ g_elseifs n' l2 (SS p') = Some s' /\
                         (l2 = [] \/ exists el b, l2 = [el; Lst [PNone; b]])).
 
 Definition precur_ok (Gd : Z -> Prop) (m : tree -> M tree) : Prop :=
   forall l first gfirst p mx s', Gd p -> g_sufs l (SS p) = Some s' -> Forall (sfx_ok ts mx) l -> follow fcont mx s' ->
   den gfirst first = true -> is_hidden first = false -> is_none first = false ->
-  RT (m first (p, mx)) mx (fun t p' => SS p' = s' /\ p <= p' /\ den (wraps gfirst l) t = true /\
+  RT ts (m first (p, mx)) mx (fun t p' => SS p' = s' /\ p <= p' /\ den (wraps gfirst l) t = true /\
                                        (l = [] -> t = first) /\ is_hidden t = false /\ is_none t = false).
 
 Record comp (Gd : Z -> Prop) (R : funs) : Prop := mkComp {
@@ -322,8 +324,8 @@ Record comp (Gd : Z -> Prop) (R : funs) : Prop := mkComp {
 
 Variable R : funs.
 Variable k : Z.
-Definition G (p : Z) : Prop := 0 <= p /\ len - p < k.
-Definition G' (p : Z) : Prop := 0 <= p /\ len - p <= k.
+Definition G (p : Z) : Prop := 0 <= p /\ (len - p < k /\ p <= len).
+Definition G' (p : Z) : Prop := 0 <= p /\ (len - p <= k /\ p <= len).
 Hypothesis HR : comp G R.
 
 Ltac gd := unfold G, G' in *; lia.
@@ -332,10 +334,10 @@ Ltac gd := unfold G, G' in *; lia.
 Lemma L_semis : semis_ok G' (semis_def ts R).
 Proof.
   intros p mx l s' HG Hg HC Hf. destruct HG as [Hp0 HGk]. unfold semis_def. destruct l as [|c r]; cbn [g_semis] in Hg.
-  - injection Hg as <-. miss. rewrite ret_eq. apply RT_ok. repeat split; first [lia | reflexivity].
+  - injection Hg as <-. miss. rewrite ret_eq. apply RT_ok; [lia|]. repeat split; first [lia | reflexivity].
   - osplit Hg E. apply CTXL_cons in HC. destruct HC as [HC1 HC2]. tinv E. hit.
     eapply RT_bind; [eapply (c_semis _ _ HR); [gd | exact Hg | exact HC2 | exact Hf]|].
-    cbv beta. intros tl p' (Q1 & Q2 & Q3). rewrite ret_eq. apply RT_ok. split; [exact Q1|]. split; [lia|].
+    cbv beta. intros tl p' Hl_px (Q1 & Q2 & Q3). rewrite ret_eq. apply RT_ok; [lia|]. split; [exact Q1|]. split; [lia|].
     rewrite views_cons. exact Q3.
 Qed.
 
@@ -349,18 +351,18 @@ Proof.
     + rewrite matches_kd. destruct (kmatch (kd t) (psym ","%bs)) eqn:Ek.
       * destruct (peek_some _ _ _ _ Epk) as (r2 & Hs & Hfo). rewrite Hs in Hnl.
         destruct (spos ts p i t r2 Hp0 Hs) as (Hle & Hlt & Hn). rewrite <- Hn in Hnl.
-        cbv beta iota zeta. miss. prim. rewrite ret_eq. apply RT_ok. repeat split; first [lia | reflexivity].
-      * cbv beta iota zeta. rewrite ret_eq. apply RT_ok. repeat split; first [lia | reflexivity].
-    + cbv beta iota zeta. rewrite ret_eq. apply RT_ok. repeat split; first [lia | reflexivity].
+        cbv beta iota zeta. miss. prim. rewrite ret_eq. apply RT_ok; [lia|]. repeat split; first [lia | reflexivity].
+      * cbv beta iota zeta. rewrite ret_eq. apply RT_ok; [lia|]. repeat split; first [lia | reflexivity].
+    + cbv beta iota zeta. rewrite ret_eq. apply RT_ok; [lia|]. repeat split; first [lia | reflexivity].
   - osplit Hg E1. osplit Hg E2. apply CTXL_cons in HC. destruct HC as [HC1 HC]. apply CTXL_cons in HC. destruct HC as [HC2 HC].
     tinv E1. tinv E2. hit. hit.
     eapply RT_bind; [eapply (c_namelist_loop _ _ HR); [gd | exact Hg | exact HC | exact Hnl]|].
-    cbv beta. intros tl p' (Q1 & Q2 & Q3). rewrite ret_eq. apply RT_ok. split; [exact Q1|]. split; [lia|].
+    cbv beta. intros tl p' Hl_px (Q1 & Q2 & Q3). rewrite ret_eq. apply RT_ok; [lia|]. split; [exact Q1|]. split; [lia|].
     all2v_tac. exact Q3.
 Qed.
 
 Lemma L_namelist p mx g s' : G' p -> namelist g (SS p) = Some s' -> CTX g mx -> nl_stop mx s' ->
-  RT (namelist_def ts R (p, mx)) mx (fun t p' => SS p' = s' /\ p < p' /\ den g t = true /\ is_none t = false /\ is_hidden t = false).
+  RT ts (namelist_def ts R (p, mx)) mx (fun t p' => SS p' = s' /\ p < p' /\ den g t = true /\ is_none t = false /\ is_hidden t = false).
 Proof.
   intros HG Hg HC Hnl. destruct HG as [Hp0 HGk]. unfold namelist in Hg.
   destruct g as [tag a b sh fs| | | | | | | |]; try discriminate. destruct fs as [|[| |l| | | | | |] [|? ?]]; try discriminate.
@@ -370,7 +372,7 @@ Proof.
   destruct l as [|x r]; cbn [sep_list] in Hg; [discriminate|]. osplit Hg E. apply CTXL_cons in HC. destruct HC as [HC1 HC].
   tinv E. unfold namelist_def. prim. hit.
   eapply RT_bind; [eapply L_namelist_loop; [gd | exact Hg | exact HC | exact Hnl]|].
-  cbv beta. intros tl p' (Q1 & Q2 & Q3). rewrite mk_eq. apply RT_ok. split; [exact Q1|]. split; [lia|].
+  cbv beta. intros tl p' Hl_px (Q1 & Q2 & Q3). rewrite mk_eq. apply RT_ok; [lia|]. split; [exact Q1|]. split; [lia|].
   split; [|split; reflexivity]. den_side.
 Qed.
 
@@ -379,11 +381,11 @@ Lemma L_funcname_loop : funcname_loop_ok G' (funcname_loop_def ts R).
 Proof.
   intros p mx l s' HG Hg HC Hf. destruct HG as [Hp0 HGk]. unfold funcname_loop_def.
   destruct l as [|c [|x r]]; cbn [sep_tail] in Hg; [|discriminate|].
-  - injection Hg as <-. miss. rewrite ret_eq. apply RT_ok. repeat split; first [lia | reflexivity].
+  - injection Hg as <-. miss. rewrite ret_eq. apply RT_ok; [lia|]. repeat split; first [lia | reflexivity].
   - osplit Hg E1. osplit Hg E2. apply CTXL_cons in HC. destruct HC as [HC1 HC]. apply CTXL_cons in HC. destruct HC as [HC2 HC].
     tinv E1. tinv E2. hit. hit.
     eapply RT_bind; [eapply (c_funcname_loop _ _ HR); [gd | exact Hg | exact HC | exact Hf]|].
-    cbv beta. intros tl p' (Q1 & Q2 & Q3). rewrite ret_eq. apply RT_ok. split; [exact Q1|]. split; [lia|].
+    cbv beta. intros tl p' Hl_px (Q1 & Q2 & Q3). rewrite ret_eq. apply RT_ok; [lia|]. split; [exact Q1|]. split; [lia|].
     all2v_tac. exact Q3.
 Qed.
 
@@ -401,7 +403,7 @@ Definition g_funcname (g : tree) (s : stream) : option stream :=
   end.
 
 Lemma L_funcname p mx g s' : G' p -> g_funcname g (SS p) = Some s' -> CTX g mx -> follow (anyof [psym "("%bs]) mx s' ->
-  RT (funcname_def ts R (p, mx)) mx (fun t p' => SS p' = s' /\ p < p' /\ den g t = true /\ is_none t = false /\ is_hidden t = false).
+  RT ts (funcname_def ts R (p, mx)) mx (fun t p' => SS p' = s' /\ p < p' /\ den g t = true /\ is_none t = false /\ is_hidden t = false).
 Proof.
   intros HG Hg HC Hf. destruct HG as [Hp0 HGk]. unfold g_funcname in Hg.
   destruct g as [tag a b sh fs| | | | | | | |]; try discriminate. destruct fs as [|[| |path| | | | | |] m]; try discriminate.
@@ -412,24 +414,24 @@ Proof.
   destruct m as [|c [|nm [|? ?]]]; try discriminate.
   - destruct c; try discriminate. injection Hg as <-.
     eapply RT_bind; [eapply L_funcname_loop; [gd | exact E | exact HCp | fw]|].
-    cbv beta. intros tl p' (Q1 & Q2 & Q3). subst s. miss. rewrite mk_eq. apply RT_ok.
+    cbv beta. intros tl p' Hl_px (Q1 & Q2 & Q3). subst s. miss. rewrite mk_eq. apply RT_ok; [lia|].
     split; [reflexivity|]. split; [lia|]. split; [|split; reflexivity]. den_side.
   - assert (Hc : exists ci, c = Kw ci) by (destruct c; try discriminate; eexists; reflexivity).
     destruct Hc as (ci & ->). osplit Hg E2. pose proof (hd_sym _ _ _ _ E2) as Hh.
     eapply RT_bind; [eapply L_funcname_loop; [gd | exact E | exact HCp | fhd Hh]|].
-    cbv beta. intros tl p' (Q1 & Q2 & Q3). subst s. ctx_split HCm. tinv E2. tinv Hg. hit. hit.
-    rewrite mk_eq. apply RT_ok.
+    cbv beta. intros tl p' Hl_px (Q1 & Q2 & Q3). subst s. ctx_split HCm. tinv E2. tinv Hg. hit. hit.
+    rewrite mk_eq. apply RT_ok; [lia|].
     split; [reflexivity|]. split; [lia|]. split; [|split; reflexivity]. den_side.
   - exfalso. gmatch Hg.
 Qed.
 
 (* ---------------------------------------------------------------- expression lists *)
 Lemma R_exp p mx n g s' : G p -> g_exp n g (SS p) = Some s' -> CTX g mx -> follow fexp mx s' ->
-  RT (r_exp R (p, mx)) mx (fun t p' => SS p' = s' /\ p < p' /\ den g t = true /\ isnode t p' /\ exp_shape t).
+  RT ts (r_exp R (p, mx)) mx (fun t p' => SS p' = s' /\ p < p' /\ den g t = true /\ isnode t p' /\ exp_shape t).
 Proof.
   intros HG Hg HC Hf. destruct (g_exp_items _ _ _ _ Hg) as (m & Hm).
-  destruct (c_exp _ _ HR p mx m (items_of g) s' HG Hm (CTX_items ts g mx HC) Hf) as (t & p' & E & Q1 & Q2 & Q3 & Q4 & Q5 & Q6).
-  exists t, p'. split; [exact E|]. repeat split; try assumption.
+  destruct (c_exp _ _ HR p mx m (items_of g) s' HG Hm (CTX_items ts g mx HC) Hf) as (t & p' & E & Hl' & Q1 & Q2 & Q3 & Q4 & Q5 & Q6).
+  exists t, p'. split; [exact E|]. split; [exact Hl'|]. repeat split; try assumption.
   apply den_of_items; try assumption. eexists _, _, _. exact Hg.
 Qed.
 
@@ -445,19 +447,19 @@ Lemma L_explist_loop : explist_loop_ok G' (explist_loop_def ts R).
 Proof.
   intros p mx n l s' HG Hg HC Hf. destruct HG as [Hp0 HGk]. unfold explist_loop_def.
   destruct l as [|c [|x r]]; cbn [sep_tail] in Hg; [|discriminate|].
-  - injection Hg as <-. miss. rewrite ret_eq. apply RT_ok. repeat split; first [lia | reflexivity].
+  - injection Hg as <-. miss. rewrite ret_eq. apply RT_ok; [lia|]. repeat split; first [lia | reflexivity].
   - osplit Hg E1. osplit Hg E2. apply CTXL_cons in HC. destruct HC as [HC1 HC]. apply CTXL_cons in HC. destruct HC as [HC2 HC].
     tinv E1. hit.
     eapply RT_bind; [eapply R_exp; [gd | exact E2 | exact HC2 | eapply sep_tail_follow; eassumption]|].
-    cbv beta. intros e p1 (Q1 & Q2 & Q3 & Q4 & Q5). subst s0.
+    cbv beta. intros e p1 Hl_p1 (Q1 & Q2 & Q3 & Q4 & Q5). subst s0.
     destruct (isnode_facts _ _ Q4) as (Qh & Qn & _). rewrite bind_assert by exact Qn.
     eapply RT_bind; [eapply (c_explist_loop _ _ HR); [gd | exact Hg | exact HC | exact Hf]|].
-    cbv beta. intros tl p' (Q6 & Q7 & Q8). rewrite ret_eq. apply RT_ok. split; [exact Q6|]. split; [lia|].
+    cbv beta. intros tl p' Hl_px (Q6 & Q7 & Q8). rewrite ret_eq. apply RT_ok; [lia|]. split; [exact Q6|]. split; [lia|].
     all2v_tac. exact Q8.
 Qed.
 
 Lemma L_explist p mx n g s' : G p -> g_explist n g (SS p) = Some s' -> CTX g mx -> follow fexpl mx s' ->
-  RT (explist_def ts R (p, mx)) mx (fun t p' => SS p' = s' /\ p < p' /\ den g t = true /\ is_none t = false /\ is_hidden t = false).
+  RT ts (explist_def ts R (p, mx)) mx (fun t p' => SS p' = s' /\ p < p' /\ den g t = true /\ is_none t = false /\ is_hidden t = false).
 Proof.
   intros HG Hg HC Hf. destruct HG as [Hp0 HGk]. destruct n; [discriminate|]. cbn [g_explist] in Hg.
   destruct g as [tag a b sh fs| | | | | | | |]; try discriminate. destruct fs as [|[| |l| | | | | |] [|? ?]]; try discriminate.
@@ -466,10 +468,10 @@ Proof.
   destruct l as [|x r]; cbn [sep_list] in Hg; [discriminate|]. osplit Hg E. apply CTXL_cons in HC. destruct HC as [HC1 HC].
   unfold explist_def. prim.
   eapply RT_bind; [eapply R_exp; [split; lia | exact E | exact HC1 | eapply sep_tail_follow; eassumption]|].
-  cbv beta. intros e p1 (Q1 & Q2 & Q3 & Q4 & Q5). subst s.
+  cbv beta. intros e p1 Hl_p1 (Q1 & Q2 & Q3 & Q4 & Q5). subst s.
   destruct (isnode_facts _ _ Q4) as (Qh & Qn & _). rewrite Qn.
   eapply RT_bind; [eapply L_explist_loop; [gd | exact Hg | exact HC | exact Hf]|].
-  cbv beta. intros tl p' (Q6 & Q7 & Q8). rewrite mk_eq. apply RT_ok. split; [exact Q6|]. split; [lia|].
+  cbv beta. intros tl p' Hl_px (Q6 & Q7 & Q8). rewrite mk_eq. apply RT_ok; [lia|]. split; [exact Q6|]. split; [lia|].
   split; [|split; reflexivity]. den_side.
 Qed.
 
@@ -507,7 +509,7 @@ Qed.
 Definition field_end : list pat := [psym ","%bs; psym ";"%bs; psym "}"%bs].
 
 Lemma L_field p mx n g s' : G p -> g_field n g (SS p) = Some s' -> CTX g mx -> follow (anyof field_end) mx s' ->
-  RT (field_def ts R (p, mx)) mx (fun t p' => SS p' = s' /\ p < p' /\ den g t = true /\ is_none t = false /\ is_hidden t = false).
+  RT ts (field_def ts R (p, mx)) mx (fun t p' => SS p' = s' /\ p < p' /\ den g t = true /\ is_none t = false /\ is_hidden t = false).
 Proof.
   intros HG Hg HC Hf. destruct HG as [Hp0 HGk]. destruct n; [discriminate|]. cbn [g_field] in Hg.
   destruct g as [tag a b sh fs| | | | | | | |]; try discriminate. unfold field_def. prim.
@@ -516,30 +518,30 @@ Proof.
     osplit Hg E1. osplit Hg E2. osplit Hg E3. osplit Hg E4. tinv E1. hit.
     pose proof (hd_sym _ _ _ _ E3) as Hh.
     eapply RT_bind; [eapply R_exp; [gd | exact E2 | eassumption | fhd Hh]|].
-    cbv beta. intros e1 p1 (Q1 & Q2 & Q3 & Q4 & Q5). subst s0.
+    cbv beta. intros e1 p1 Hl_p1 (Q1 & Q2 & Q3 & Q4 & Q5). subst s0.
     destruct (isnode_facts _ _ Q4) as (Qh & Qn & _). rewrite bind_assert by exact Qn.
     tinv E3. hit. tinv E4. hit.
     eapply RT_bind; [eapply R_exp; [gd | exact Hg | eassumption | fw]|].
-    cbv beta. intros e2 p2 (Q6 & Q7 & Q8 & Q9 & Q10).
+    cbv beta. intros e2 p2 Hl_p2 (Q6 & Q7 & Q8 & Q9 & Q10).
     destruct (isnode_facts _ _ Q9) as (Qh2 & Qn2 & _). rewrite bind_assert by exact Qn2.
-    rewrite mk_eq. apply RT_ok. split; [exact Q6|]. split; [lia|]. split; [|split; reflexivity]. den_side. }
+    rewrite mk_eq. apply RT_ok; [lia|]. split; [exact Q6|]. split; [lia|]. split; [|split; reflexivity]. den_side. }
   gtag Hg tFieldNamedKey.
   { gmatch Hg. pose proof (CTX_sh ts _ _ _ _ _ _ HC eq_refl) as ->. apply CTX_node in HC. ctx_split HC.
     osplit Hg E1. osplit Hg E2. tinv E1. miss. hit. tinv E2. hit.
     eapply RT_bind; [eapply R_exp; [gd | exact Hg | eassumption | fw]|].
-    cbv beta. intros e2 p2 (Q6 & Q7 & Q8 & Q9 & Q10).
+    cbv beta. intros e2 p2 Hl_p2 (Q6 & Q7 & Q8 & Q9 & Q10).
     destruct (isnode_facts _ _ Q9) as (Qh2 & Qn2 & _). rewrite bind_assert by exact Qn2.
-    rewrite mk_eq. apply RT_ok. split; [exact Q6|]. split; [lia|]. split; [|split; reflexivity]. den_side. }
+    rewrite mk_eq. apply RT_ok; [lia|]. split; [exact Q6|]. split; [lia|]. split; [|split; reflexivity]. den_side. }
   gtag Hg tFieldExp. gmatch Hg. match type of Hg with g_exp _ ?x _ = _ => rename x into ge end.
   pose proof (CTX_sh ts _ _ _ _ _ _ HC eq_refl) as ->. apply CTX_node in HC. ctx_split HC.
   pose proof (g_exp_head _ _ _ _ Hg) as Hh. pose proof Hh as (hi & ht & r0 & Hs & Ha).
   assert (Hf1 : follow (nomatch [psym "["%bs]) mx (SS p)) by (fhd Hh). miss.
-  assert (Hrest : RT ((_ <- set_pos p;; e <- r_exp R;; (if is_none e then ret e else mk tFieldExp p [e])) (p, mx)) mx
+  assert (Hrest : RT ts ((_ <- set_pos p;; e <- r_exp R;; (if is_none e then ret e else mk tFieldExp p [e])) (p, mx)) mx
             (fun t1 p' => SS p' = s' /\ p < p' /\ den (Node tFieldExp a b false [ge]) t1 = true /\ is_none t1 = false /\ is_hidden t1 = false)).
   { prim. eapply RT_bind; [eapply R_exp; [split; lia | exact Hg | eassumption | fw]|].
-    cbv beta. intros e2 p2 (Q6 & Q7 & Q8 & Q9 & Q10).
+    cbv beta. intros e2 p2 Hl_p2 (Q6 & Q7 & Q8 & Q9 & Q10).
     destruct (isnode_facts _ _ Q9) as (Qh2 & Qn2 & _). rewrite Qn2.
-    rewrite mk_eq. apply RT_ok. split; [exact Q6|]. split; [lia|]. split; [|split; reflexivity]. den_side. }
+    rewrite mk_eq. apply RT_ok; [lia|]. split; [exact Q6|]. split; [lia|]. split; [|split; reflexivity]. den_side. }
   destruct (kmatch (kd ht) (PClass CName)) eqn:Ek.
   - destruct (spos ts p hi ht r0 Hp0 Hs) as (Hle & Hlt & Hn). rewrite Hs in Hg.
     assert (Hil : hi < lim mx).
@@ -569,7 +571,7 @@ Lemma L_fields_loop : fields_loop_ok G' (fields_loop_def ts R).
 Proof.
   intros p mx n l s' HG Hg HC Hf. destruct HG as [Hp0 HGk].
   destruct l as [|c r']; cbn [g_ftail] in Hg.
-  - unfold fields_loop_def. injection Hg as <-. miss. miss. rewrite ret_eq. apply RT_ok. repeat split; first [lia | reflexivity].
+  - unfold fields_loop_def. injection Hg as <-. miss. miss. rewrite ret_eq. apply RT_ok; [lia|]. repeat split; first [lia | reflexivity].
   - osplit Hg E. apply CTXL_cons in HC. destruct HC as [HC1 HC].
     assert (Hsep : exists i t, c = Kw i /\ SS p = (i, t) :: s /\
               fields_loop_def ts R (p, mx) =
@@ -582,17 +584,17 @@ Proof.
     destruct Hsep as (i & t & -> & Hs & ->). destruct (spos ts p i t s Hp0 Hs) as (Hle & Hlt & Hn). subst s.
     destruct n; [discriminate|]. rewrite g_fields_unfold in Hg. destruct r' as [|f r''].
     + injection Hg as <-. rewrite (bind_ok _ _ _ _ _ (L_field_none (i + 1) mx ltac:(gd) Hf)).
-      cbn [is_none strip_paren]. rewrite ret_eq. apply RT_ok. split; [reflexivity|]. split; [lia|]. reflexivity.
+      cbn [is_none strip_paren]. rewrite ret_eq. apply RT_ok; [lia|]. split; [reflexivity|]. split; [lia|]. reflexivity.
     + osplit Hg E2. apply CTXL_cons in HC. destruct HC as [HC2 HC].
       eapply RT_bind; [eapply L_field; [gd | exact E2 | exact HC2 | eapply ftail_follow; eassumption]|].
-      cbv beta. intros f1 p1 (Q1 & Q2 & Q3 & Q4 & Q5). subst s. rewrite Q4.
+      cbv beta. intros f1 p1 Hl_p1 (Q1 & Q2 & Q3 & Q4 & Q5). subst s. rewrite Q4.
       eapply RT_bind; [eapply (c_fields_loop _ _ HR); [gd | exact Hg | exact HC | exact Hf]|].
-      cbv beta. intros tl p' (Q6 & Q7 & Q8). rewrite ret_eq. apply RT_ok. split; [exact Q6|]. split; [lia|].
+      cbv beta. intros tl p' Hl_px (Q6 & Q7 & Q8). rewrite ret_eq. apply RT_ok; [lia|]. split; [exact Q6|]. split; [lia|].
       all2v_tac. exact Q8.
 Qed.
 
 Lemma L_table p mx n g s' : G' p -> g_table n g (SS p) = Some s' -> CTX g mx ->
-  RT (tableconstructor_def ts R (p, mx)) mx (fun t p' => SS p' = s' /\ p < p' /\ den g t = true /\ is_none t = false /\ is_hidden t = false).
+  RT ts (tableconstructor_def ts R (p, mx)) mx (fun t p' => SS p' = s' /\ p < p' /\ den g t = true /\ is_none t = false /\ is_hidden t = false).
 Proof.
   intros HG Hg HC. destruct HG as [Hp0 HGk]. destruct n; [discriminate|]. cbn [g_table] in Hg.
   destruct g as [tag a b sh fs| | | | | | | |]; try discriminate. gmatch Hg. gtag Hg tTableConstructor.
@@ -603,13 +605,13 @@ Proof.
   destruct n; [discriminate|]. rewrite g_fields_unfold in E2. destruct l as [|f r].
   - injection E2 as <-. rewrite (bind_ok _ _ _ _ _ (L_field_none (i + 1) mx ltac:(gd) Hfe)).
     eapply RT_bind; [eapply (L_fields_loop (i + 1) mx n []); [gd | reflexivity | constructor | exact Hfe]|].
-    cbv beta. intros tl p1 (Q1 & Q2 & Q3). rewrite <- Q1 in Hg. tinv Hg. hit. rewrite mk_eq. apply RT_ok.
+    cbv beta. intros tl p1 Hl_p1 (Q1 & Q2 & Q3). rewrite <- Q1 in Hg. tinv Hg. hit. rewrite mk_eq. apply RT_ok; [lia|].
     split; [reflexivity|]. split; [lia|]. split; [|split; reflexivity]. cbn [is_none strip_paren app]. den_side.
   - osplit E2 E3. apply CTXL_cons in HC1. destruct HC1 as [HCf HCr].
     eapply RT_bind; [eapply L_field; [gd | exact E3 | exact HCf | eapply ftail_follow; eassumption]|].
-    cbv beta. intros f1 p1 (Q1 & Q2 & Q3 & Q4 & Q5). subst s.
+    cbv beta. intros f1 p1 Hl_p1 (Q1 & Q2 & Q3 & Q4 & Q5). subst s.
     eapply RT_bind; [eapply L_fields_loop; [gd | exact E2 | exact HCr | exact Hfe]|].
-    cbv beta. intros tl p2 (Q6 & Q7 & Q8). subst s0. tinv Hg. hit. rewrite mk_eq. apply RT_ok.
+    cbv beta. intros tl p2 Hl_p2 (Q6 & Q7 & Q8). subst s0. tinv Hg. hit. rewrite mk_eq. apply RT_ok; [lia|].
     split; [reflexivity|]. split; [lia|]. split; [|split; reflexivity]. rewrite Q4. cbn [app]. den_side.
 Qed.
 
@@ -624,7 +626,7 @@ Proof.
 Qed.
 
 Lemma L_args p mx n g s' : G' p -> g_args n g (SS p) = Some s' -> CTX g mx ->
-  RT (args_def ts R (p, mx)) mx (fun t p' => SS p' = s' /\ p < p' /\ den g t = true /\ is_none t = false /\ is_hidden t = false).
+  RT ts (args_def ts R (p, mx)) mx (fun t p' => SS p' = s' /\ p < p' /\ den g t = true /\ is_none t = false /\ is_hidden t = false).
 Proof.
   intros HG Hg HC. destruct HG as [Hp0 HGk]. destruct n; [discriminate|]. unfold args_def. prim.
   destruct g as [tag a b sh fs|i0 t0| | | | | | |]; try discriminate.
@@ -635,18 +637,18 @@ Proof.
       apply args_paren_inv in Hg. destruct Hg as [[-> Hg]|[Hne Hg]].
       * osplit Hg E1. tinv E1. hit. pose proof (hd_sym _ _ _ _ Hg) as Hh.
         rewrite (bind_ok _ _ _ _ _ (L_explist_none (i + 1) mx ltac:(gd) ltac:(fhd Hh))).
-        tinv Hg. hit. rewrite mk_eq. apply RT_ok. split; [reflexivity|]. split; [lia|]. split; [|split; reflexivity]. den_side.
+        tinv Hg. hit. rewrite mk_eq. apply RT_ok; [lia|]. split; [reflexivity|]. split; [lia|]. split; [|split; reflexivity]. den_side.
       * osplit Hg E1. osplit Hg E2. tinv E1. hit. pose proof (hd_sym _ _ _ _ Hg) as Hh.
         eapply RT_bind; [eapply L_explist; [gd | exact E2 | eassumption | fhd Hh]|].
-        cbv beta. intros el1 p1 (Q1 & Q2 & Q3 & Q4 & Q5). subst s0. tinv Hg. hit. rewrite mk_eq. apply RT_ok.
+        cbv beta. intros el1 p1 Hl_p1 (Q1 & Q2 & Q3 & Q4 & Q5). subst s0. tinv Hg. hit. rewrite mk_eq. apply RT_ok; [lia|].
         split; [reflexivity|]. split; [lia|]. split; [|split; reflexivity]. den_side.
     + gtag Hg tTableConstructor. change (g_table n (Node tTableConstructor a b sh fs) (SS p) = Some s') in Hg.
       pose proof (g_table_head _ _ _ _ Hg) as Hh. assert (Hf1 : follow (nomatch [psym "("%bs]) mx (SS p)) by (fhd Hh). miss.
       eapply RT_bind; [eapply L_table; [split; assumption | exact Hg | exact HC]|].
-      cbv beta. intros t1 p1 (Q1 & Q2 & Q3 & Q4 & Q5). rewrite Q4. cbn [negb]. rewrite ret_eq. apply RT_ok.
+      cbv beta. intros t1 p1 Hl_p1 (Q1 & Q2 & Q3 & Q4 & Q5). rewrite Q4. cbn [negb]. rewrite ret_eq. apply RT_ok; [lia|].
       repeat split; assumption.
   - cbn [g_args] in Hg. tinv Hg. miss. rewrite (bind_ok _ _ _ _ _ (L_table_none p mx Hp0 ltac:(fw))).
-    cbn [is_none strip_paren negb]. hit. rewrite ret_eq. apply RT_ok. cbn [opt_tok].
+    cbn [is_none strip_paren negb]. hit. rewrite ret_eq. apply RT_ok; [lia|]. cbn [opt_tok].
     split; [reflexivity|]. split; [lia|]. split; [apply den_tok|]. split; reflexivity.
 Qed.
 
@@ -700,7 +702,7 @@ Qed.
 Lemma funcbody_tail pos oi nl dots p1 mx n c bd e s' :
   G p1 -> (s <~ sym ")"%bs c (SS p1) ;; s <~ g_chunk n bd s ;; kw "end"%bs e s) = Some s' ->
   CTX c mx -> CTX bd mx -> CTX e mx ->
-  RT ((fun dots => '(ci, _) <- expect ts (psym ")"%bs) ;; b <- r_chunk R ;; b <- assert_node b ;;
+  RT ts ((fun dots => '(ci, _) <- expect ts (psym ")"%bs) ;; b <- r_chunk R ;; b <- assert_node b ;;
                    '(ei, _) <- expect ts (pkw "end"%bs) ;;
                    mk tFunctionBody pos ([Kw oi; nl] ++ dots ++ [Kw ci; b; Kw ei])) dots (p1, mx)) mx
      (fun t p' => SS p' = s' /\ p1 < p' /\
@@ -710,13 +712,13 @@ Proof.
   intros HG Hg HC1 HC2 HC3. destruct HG as [Hp0 HGk]. cbv beta.
   osplit Hg E1. osplit Hg E2. tinv E1. hit. pose proof (hd_kw _ _ _ _ Hg) as Hh.
   eapply RT_bind; [eapply (c_chunk _ _ HR); [gd | exact E2 | eassumption | fhd Hh]|].
-  cbv beta. intros b1 p2 (Q1 & Q2 & Q3 & fs & ->). subst s0. rewrite bind_assert by reflexivity.
-  tinv Hg. hit. rewrite mk_eq. apply RT_ok. split; [reflexivity|]. split; [lia|].
+  cbv beta. intros b1 p2 Hl_p2 (Q1 & Q2 & Q3 & fs & ->). subst s0. rewrite bind_assert by reflexivity.
+  tinv Hg. hit. rewrite mk_eq. apply RT_ok; [lia|]. split; [reflexivity|]. split; [lia|].
   eexists _, _, _. split; [reflexivity|]. split; [exact Q3|]. repeat split.
 Qed.
 
 Lemma L_funcbody p mx n g s' : G' p -> g_funcbody n g (SS p) = Some s' -> CTX g mx ->
-  RT (funcbody_def ts R (p, mx)) mx (fun t p' => SS p' = s' /\ p < p' /\ den g t = true /\ is_none t = false /\ is_hidden t = false).
+  RT ts (funcbody_def ts R (p, mx)) mx (fun t p' => SS p' = s' /\ p < p' /\ den g t = true /\ is_none t = false /\ is_hidden t = false).
 Proof.
   intros HG Hg HC. destruct HG as [Hp0 HGk]. destruct n; [discriminate|].
   destruct g as [tag a b sh fs| | | | | | | |]; try discriminate. destruct fs as [|o r]; [discriminate|].
@@ -733,7 +735,7 @@ Proof.
     cbn [is_none strip_paren negb]. prim. assert (Hf1 : follow (nomatch [psym "..."%bs]) mx (SS (i + 1))) by (fhd Hh).
     miss. prim.
     eapply RT_conseq; [eapply (funcbody_tail p i PNone [PNone]); [gd | exact Hg | eassumption | eassumption | eassumption]|].
-    cbv beta. intros tr p' (Q1 & Q2 & ci & b1 & ei & -> & Q3 & Q4 & -> & ->).
+    cbv beta. intros tr p' Hl_px (Q1 & Q2 & ci & b1 & ei & -> & Q3 & Q4 & -> & ->).
     split; [exact Q1|]. split; [lia|]. split; [|split; reflexivity]. cbn [app]. den_side.
   - osplit Hg E1. unfold g_dots in E1. destruct dd as [t2 da db dsh dfs| | | | | | | |]; try discriminate.
     gmatch E1. gtag E1 tVarargDots. ctx_split HCtl. open_node.
@@ -741,14 +743,14 @@ Proof.
     rewrite (bind_ok _ _ _ _ _ (L_namelist_none (i + 1) mx ltac:(lia) ltac:(fhd Hh))).
     cbn [is_none strip_paren negb]. prim. tinv E1. hit. prim.
     eapply RT_conseq; [eapply (funcbody_tail p i PNone [Node tVarargDots (i + 1) (i0 + 1) false [Kw i0]]); [gd | exact Hg | eassumption | eassumption | eassumption]|].
-    cbv beta. intros tr p' (Q1 & Q2 & ci & b1 & ei & -> & Q3 & Q4 & -> & ->).
+    cbv beta. intros tr p' Hl_px (Q1 & Q2 & ci & b1 & ei & -> & Q3 & Q4 & -> & ->).
     split; [exact Q1|]. split; [lia|]. split; [|split; reflexivity]. cbn [app]. den_side.
   - osplit Hg E1. pose proof Hg as Hg'. osplit Hg' E2. pose proof (hd_sym _ _ _ _ E2) as Hh.
     eapply RT_bind; [eapply L_namelist; [gd | exact E1 | exact HCnl | eapply nl_stop_hd; [|exact Hh]; reflexivity]|].
-    cbv beta. intros nl1 p1 (Q1 & Q2 & Q3 & Q4 & Q5). subst s. rewrite Q4. cbn [negb]. prim.
+    cbv beta. intros nl1 p1 Hl_p1 (Q1 & Q2 & Q3 & Q4 & Q5). subst s. rewrite Q4. cbn [negb]. prim.
     assert (Hf1 : follow (nomatch [psym ","%bs]) mx (SS p1)) by (fhd Hh). miss. prim.
     eapply RT_conseq; [eapply (funcbody_tail p i nl1 [PNone]); [gd | exact Hg | eassumption | eassumption | eassumption]|].
-    cbv beta. intros tr p' (Q6 & Q7 & ci & b1 & ei & -> & Q8 & Q9 & -> & ->).
+    cbv beta. intros tr p' Hl_px (Q6 & Q7 & ci & b1 & ei & -> & Q8 & Q9 & -> & ->).
     split; [exact Q6|]. split; [lia|]. split; [|split; reflexivity]. cbn [app]. den_side.
   - osplit Hg E1. osplit Hg E2. osplit Hg E3.
     unfold g_dots in E3. destruct dd as [t2 da db dsh dfs| | | | | | | |]; try discriminate.
@@ -757,23 +759,23 @@ Proof.
     { apply sym_inv in E2. destruct E2 as (j & u & _ & -> & Hku). unfold nl_stop, peek. destruct (fence_ok mx j); [|exact I].
       rewrite Hku. pose proof (hd_sym _ _ _ _ E3) as Hh. fhd Hh. }
     eapply RT_bind; [eapply L_namelist; [gd | exact E1 | exact HCnl | exact Hnls]|].
-    cbv beta. intros nl1 p1 (Q1 & Q2 & Q3 & Q4 & Q5). subst s. rewrite Q4. cbn [negb]. prim.
+    cbv beta. intros nl1 p1 Hl_p1 (Q1 & Q2 & Q3 & Q4 & Q5). subst s. rewrite Q4. cbn [negb]. prim.
     tinv E2. hit. prim. tinv E3. hit. prim.
     eapply RT_conseq; [eapply (funcbody_tail p i nl1 [Kw i0; Node tVarargDots (i0 + 1) (i1 + 1) false [Kw i1]]); [gd | exact Hg | eassumption | eassumption | eassumption]|].
-    cbv beta. intros tr p' (Q6 & Q7 & ci & b1 & ei & -> & Q8 & Q9 & -> & ->).
+    cbv beta. intros tr p' Hl_px (Q6 & Q7 & ci & b1 & ei & -> & Q8 & Q9 & -> & ->).
     split; [exact Q6|]. split; [lia|]. split; [|split; reflexivity]. cbn [app]. den_side.
 Qed.
 
 Lemma L_function p mx n a b sh f body s' : G' p ->
   (s <~ kw "function"%bs f (SS p) ;; g_funcbody n body s) = Some s' -> CTX (Node tFunction a b sh [f; body]) mx ->
-  RT (function_def ts R (p, mx)) mx (fun t p' => SS p' = s' /\ p < p' /\ den (Node tFunction a b sh [f; body]) t = true /\
+  RT ts (function_def ts R (p, mx)) mx (fun t p' => SS p' = s' /\ p < p' /\ den (Node tFunction a b sh [f; body]) t = true /\
                                                  is_none t = false /\ is_hidden t = false).
 Proof.
   intros HG Hg HC. destruct HG as [Hp0 HGk]. pose proof (CTX_sh ts _ _ _ _ _ _ HC eq_refl) as ->.
   apply CTX_node in HC. ctx_split HC. osplit Hg E1. tinv E1. unfold function_def. prim. hit.
   eapply RT_bind; [eapply L_funcbody; [gd | exact Hg | eassumption]|].
-  cbv beta. intros b1 p1 (Q1 & Q2 & Q3 & Q4 & Q5). rewrite bind_assert by exact Q4.
-  rewrite mk_eq. apply RT_ok. split; [exact Q1|]. split; [lia|]. split; [|split; reflexivity]. den_side.
+  cbv beta. intros b1 p1 Hl_p1 (Q1 & Q2 & Q3 & Q4 & Q5). rewrite bind_assert by exact Q4.
+  rewrite mk_eq. apply RT_ok; [lia|]. split; [exact Q1|]. split; [lia|]. split; [|split; reflexivity]. den_side.
 Qed.
 
 (* ---------------------------------------------------------------- prefix expressions *)
@@ -789,45 +791,45 @@ Proof.
   intros l first gfirst p mx s' HG Hg HS Hf Hd Hh Hn. destruct HG as [Hp0 HGk]. unfold precur_def. prim.
   destruct l as [|[n [[[[tag a] b] sh] rest]] r]; cbn [g_sufs] in Hg.
   - injection Hg as <-. miss. miss. rewrite (bind_ok _ _ _ _ _ (L_args_none p mx Hp0 ltac:(fw))).
-    cbn [is_none strip_paren negb]. miss. rewrite ret_eq. apply RT_ok.
+    cbn [is_none strip_paren negb]. miss. rewrite ret_eq. apply RT_ok; [lia|].
     split; [reflexivity|]. split; [lia|]. split; [exact Hd|]. split; [reflexivity|]. split; assumption.
   - osplit Hg E. apply Forall_cons_iff in HS. destruct HS as [HS0 HS']. unfold sfx_ok in HS0. cbv beta iota in HS0.
     destruct HS0 as [HCr ->]. unfold g_suf in E.
     gtag E tVarIndex.
     { gmatch E. ctx_split HCr. osplit E E1. osplit E E2. tinv E1. hit. pose proof (hd_sym _ _ _ _ E) as Hhd.
       eapply RT_bind; [eapply R_exp; [gd | exact E2 | eassumption | fhd Hhd]|].
-      cbv beta. intros e1 p1 (Q1 & Q2 & Q3 & Q4 & Q5). subst s1.
+      cbv beta. intros e1 p1 Hl_p1 (Q1 & Q2 & Q3 & Q4 & Q5). subst s1.
       destruct (isnode_facts _ _ Q4) as (Qh & Qn & _). rewrite bind_assert by exact Qn. tinv E. hit. prim.
       match goal with |- context [wraps gfirst ((_, ?x) :: r)] =>
         eapply RT_conseq; [eapply (c_precur _ _ HR r _ (wrap1 x gfirst)); [gd | exact Hg | exact HS' | exact Hf | | reflexivity | reflexivity]|] end.
       - apply den_wrap1; [reflexivity | assumption | assumption | all2v_go].
-      - cbv beta. intros tr p' (Q6 & Q7 & Q8 & Q9 & Q10 & Q11). split; [exact Q6|]. split; [lia|].
+      - cbv beta. intros tr p' Hl_px (Q6 & Q7 & Q8 & Q9 & Q10 & Q11). split; [exact Q6|]. split; [lia|].
         split; [exact Q8|]. split; [discriminate|]. split; assumption. }
     gtag E tVarAttribute.
     { gmatch E. ctx_split HCr. osplit E E1. tinv E1. miss. hit. tinv E. hit. prim.
       match goal with |- context [wraps gfirst ((_, ?x) :: r)] =>
         eapply RT_conseq; [eapply (c_precur _ _ HR r _ (wrap1 x gfirst)); [gd | exact Hg | exact HS' | exact Hf | | reflexivity | reflexivity]|] end.
       - apply den_wrap1; [reflexivity | assumption | assumption | all2v_go].
-      - cbv beta. intros tr p' (Q6 & Q7 & Q8 & Q9 & Q10 & Q11). split; [exact Q6|]. split; [lia|].
+      - cbv beta. intros tr p' Hl_px (Q6 & Q7 & Q8 & Q9 & Q10 & Q11). split; [exact Q6|]. split; [lia|].
         split; [exact Q8|]. split; [discriminate|]. split; assumption. }
     gtag E tFunctionCall.
     { gmatch E. ctx_split HCr. pose proof (g_args_head _ _ _ _ E) as Hhd.
       assert (Hf1 : follow (nomatch [psym "["%bs; psym "."%bs]) mx (SS p)) by (fhd Hhd). miss. miss.
       eapply RT_bind; [eapply L_args; [split; assumption | exact E | eassumption]|].
-      cbv beta. intros a1 p1 (Q1 & Q2 & Q3 & Q4 & Q5). subst s. rewrite Q4. cbn [negb]. prim.
+      cbv beta. intros a1 p1 Hl_p1 (Q1 & Q2 & Q3 & Q4 & Q5). subst s. rewrite Q4. cbn [negb]. prim.
       match goal with |- context [wraps gfirst ((_, ?x) :: r)] =>
         eapply RT_conseq; [eapply (c_precur _ _ HR r _ (wrap1 x gfirst)); [gd | exact Hg | exact HS' | exact Hf | | reflexivity | reflexivity]|] end.
       - apply den_wrap1; [reflexivity | assumption | assumption | all2v_go].
-      - cbv beta. intros tr p' (Q6 & Q7 & Q8 & Q9 & Q10 & Q11). split; [exact Q6|]. split; [lia|].
+      - cbv beta. intros tr p' Hl_px (Q6 & Q7 & Q8 & Q9 & Q10 & Q11). split; [exact Q6|]. split; [lia|].
         split; [exact Q8|]. split; [discriminate|]. split; assumption. }
     gtag E tFunctionCallMethod. gmatch E. ctx_split HCr. osplit E E1. osplit E E2. tinv E1. miss. miss.
     rewrite (bind_ok _ _ _ _ _ (L_args_none p mx Hp0 ltac:(fw))). cbn [is_none strip_paren negb]. hit. tinv E2. hit.
     eapply RT_bind; [eapply L_args; [gd | exact E | eassumption]|].
-    cbv beta. intros a1 p1 (Q1 & Q2 & Q3 & Q4 & Q5). subst s. rewrite bind_assert by exact Q4. prim.
+    cbv beta. intros a1 p1 Hl_p1 (Q1 & Q2 & Q3 & Q4 & Q5). subst s. rewrite bind_assert by exact Q4. prim.
     match goal with |- context [wraps gfirst ((_, ?x) :: r)] =>
         eapply RT_conseq; [eapply (c_precur _ _ HR r _ (wrap1 x gfirst)); [gd | exact Hg | exact HS' | exact Hf | | reflexivity | reflexivity]|] end.
     + apply den_wrap1; [reflexivity | assumption | assumption | all2v_go].
-    + cbv beta. intros tr p' (Q6 & Q7 & Q8 & Q9 & Q10 & Q11). split; [exact Q6|]. split; [lia|].
+    + cbv beta. intros tr p' Hl_px (Q6 & Q7 & Q8 & Q9 & Q10 & Q11). split; [exact Q6|]. split; [lia|].
       split; [exact Q8|]. split; [discriminate|]. split; assumption.
 Qed.
 
@@ -852,7 +854,7 @@ Proof.
 Qed.
 
 Lemma L_prefixexp p mx n g s' : G' p -> g_prefix n g (SS p) = Some s' -> CTX g mx -> follow fcont mx s' ->
-  RT (prefixexp_def ts R (p, mx)) mx (fun t p' => SS p' = s' /\ p < p' /\ den g t = true /\ is_hidden t = false /\ is_none t = false).
+  RT ts (prefixexp_def ts R (p, mx)) mx (fun t p' => SS p' = s' /\ p < p' /\ den g t = true /\ is_hidden t = false /\ is_none t = false).
 Proof.
   intros HG Hg HC Hf. destruct HG as [Hp0 HGk]. apply spine in Hg. destruct Hg as (nb & base & l & s0 & -> & Hb & Hl).
   destruct (CTX_wraps_ok mx _ _ _ _ HC Hl) as [HCb HS]. unfold prefixexp_def. prim. unfold g_base in Hb.
@@ -861,19 +863,19 @@ Proof.
     match goal with |- context [wraps ?gb l] =>
       eapply RT_conseq; [eapply (L_precur l _ gb); [gd | exact Hl | exact HS | exact Hf | | reflexivity | reflexivity]|] end.
     + den_side.
-    + cbv beta. intros tr p' (Q6 & Q7 & Q8 & Q9 & Q10 & Q11). split; [exact Q6|]. split; [lia|].
+    + cbv beta. intros tr p' Hl_px (Q6 & Q7 & Q8 & Q9 & Q10 & Q11). split; [exact Q6|]. split; [lia|].
       split; [exact Q8|]. split; assumption.
   - apply CTX_paren in HCb. destruct HCb as (HCx & Hl1 & Hl2). osplit Hb E1. osplit Hb E2.
     apply eat_sym_inv in E1. destruct E1 as (t & Hs & Hk). destruct (spos ts p oi t s Hp0 Hs) as (Hle & Hlt & Hn). subst s.
     pose proof (follow_known ts _ mx _ _ _ _ Hs Hk) as Hf0. miss. hit.
     pose proof (hd_eat_sym _ _ _ _ Hb) as Hhd.
     eapply RT_bind; [eapply R_exp; [gd | exact E2 | exact HCx | fhd Hhd]|].
-    cbv beta. intros e1 p1 (Q1 & Q2 & Q3 & Q4 & Q5). subst s1.
+    cbv beta. intros e1 p1 Hl_p1 (Q1 & Q2 & Q3 & Q4 & Q5). subst s1.
     apply eat_sym_inv in Hb. destruct Hb as (t2 & Hs2 & Hk2). destruct (spos ts p1 oj t2 s0 ltac:(lia) Hs2) as (Hle2 & Hlt2 & Hn2). subst s0.
     hit. destruct (isnode_facts _ _ Q4) as (Qh & Qn & _).
     eapply RT_conseq; [eapply (L_precur l _ (Paren oi oj x)); [gd | exact Hl | exact HS | exact Hf | | reflexivity | exact Qn]|].
     + exact Q3.
-    + cbv beta. intros tr p' (Q6 & Q7 & Q8 & Q9 & Q10 & Q11). split; [exact Q6|]. split; [lia|].
+    + cbv beta. intros tr p' Hl_px (Q6 & Q7 & Q8 & Q9 & Q10 & Q11). split; [exact Q6|]. split; [lia|].
       split; [exact Q8|]. split; assumption.
 Qed.
 
@@ -881,13 +883,13 @@ Qed.
 Local Notation exp_term := (exp_term_def ts lua_unops R).
 
 Lemma L_exp_term_operand p mx n g s' : G' p -> g_operand n g (SS p) = Some s' -> CTX g mx -> follow fcont mx s' ->
-  RT (exp_term (p, mx)) mx (fun t p' => SS p' = s' /\ p < p' /\ den g t = true /\ isnode t p' /\ exp_shape t /\
+  RT ts (exp_term (p, mx)) mx (fun t p' => SS p' = s' /\ p < p' /\ den g t = true /\ isnode t p' /\ exp_shape t /\
                                        flat_exp (view t) = [view t]).
 Proof.
   intros HG Hg HC Hf. destruct HG as [Hp0 HGk]. destruct n; [discriminate|]. cbn [g_operand] in Hg.
   destruct g as [tag a b sh fs| | | | | | | |]; try discriminate. unfold exp_term_def. prim.
   assert (Hpre : forall x, g_prefix n x (SS p) = Some s' -> CTX x mx -> sh = false -> fs = [x] -> tag = tExpValue ->
-    RT ((' a0 <- accept ts (pkw "nil"%bs);;
+    RT ts ((' a0 <- accept ts (pkw "nil"%bs);;
       match a0 with
       | Some (i, _) => mk tExpValue p [Kw i; PNone]
       | None => ' a1 <- accept ts (pkw "false"%bs);;
@@ -922,11 +924,11 @@ Proof.
     assert (Hf0 : follow (anyof prefix_first) mx (SS p)) by (fhd Hh). repeat miss.
     rewrite (bind_ok _ _ _ _ _ (L_function_none p mx Hp0 ltac:(fw))). cbn [is_none strip_paren negb].
     eapply RT_bind; [eapply L_prefixexp; [split; assumption | exact Hx | exact HCx | exact Hf]|].
-    cbv beta. intros p1 q1 (Q1 & Q2 & Q3 & Q4 & Q5). rewrite Q5. cbn [negb]. rewrite mk_eq. apply RT_ok.
+    cbv beta. intros p1 q1 Hl_q1 (Q1 & Q2 & Q3 & Q4 & Q5). rewrite Q5. cbn [negb]. rewrite mk_eq. apply RT_ok; [lia|].
     split; [exact Q1|]. split; [lia|]. split; [den_side|]. split; [eexists _, _, _; reflexivity|].
     split; [shape_ev|]. rewrite view_node. apply flat_exp_other; reflexivity. }
   gtag Hg tVarargDots.
-  { gmatch Hg. open_node. tinv Hg. repeat miss. hit. rewrite mk_eq. apply RT_ok.
+  { gmatch Hg. open_node. tinv Hg. repeat miss. hit. rewrite mk_eq. apply RT_ok; [lia|].
     split; [reflexivity|]. split; [lia|]. split; [den_side|]. split; [eexists _, _, _; reflexivity|].
     split; [shape_no|]. rewrite view_node. apply flat_exp_other; reflexivity. }
   gtag Hg tExpValue. destruct fs as [|x [|y [|? ?]]]; try discriminate; try (exfalso; gmatch Hg; fail).
@@ -936,7 +938,7 @@ Proof.
       { gmatch Hg. pose proof Hg as Hg'. osplit Hg' E. pose proof (hd_kw _ _ _ _ E) as Hh.
         assert (Hf0 : follow (anyof [pkw "function"%bs]) mx (SS p)) by (fhd Hh). repeat miss.
         eapply RT_bind; [eapply L_function; [split; assumption | exact Hg | eassumption]|].
-        cbv beta. intros f1 q1 (Q1 & Q2 & Q3 & Q4 & Q5). rewrite Q4. cbn [negb]. rewrite mk_eq. apply RT_ok.
+        cbv beta. intros f1 q1 Hl_q1 (Q1 & Q2 & Q3 & Q4 & Q5). rewrite Q4. cbn [negb]. rewrite mk_eq. apply RT_ok; [lia|].
         split; [exact Q1|]. split; [lia|]. split; [den_side|]. split; [eexists _, _, _; reflexivity|].
         split; [shape_ev|]. rewrite view_node. apply flat_exp_other; reflexivity. }
       gtag Hg tTableConstructor.
@@ -945,20 +947,20 @@ Proof.
         rewrite (bind_ok _ _ _ _ _ (L_function_none p mx Hp0 ltac:(fw))). cbn [is_none strip_paren negb].
         rewrite (bind_ok _ _ _ _ _ (L_prefix_none p mx Hp0 ltac:(fw))). cbn [is_none strip_paren negb hid_list app].
         eapply RT_bind; [eapply L_table; [split; assumption | exact Hg | eassumption]|].
-        cbv beta. intros f1 q1 (Q1 & Q2 & Q3 & Q4 & Q5). rewrite Q4. cbn [negb]. rewrite mk_eq. apply RT_ok.
+        cbv beta. intros f1 q1 Hl_q1 (Q1 & Q2 & Q3 & Q4 & Q5). rewrite Q4. cbn [negb]. rewrite mk_eq. apply RT_ok; [lia|].
         split; [exact Q1|]. split; [lia|]. split; [den_side|]. split; [eexists _, _, _; reflexivity|].
         split; [shape_ev|]. rewrite view_node. apply flat_exp_other; reflexivity. }
       eapply Hpre; [exact Hg | eassumption | reflexivity | reflexivity | reflexivity].
     + open_node. destruct (tokc CNumber (Tok i0 t0) (SS p)) eqn:E.
-      * injection Hg as <-. tinv E. repeat miss. hit. rewrite mk_eq. apply RT_ok.
+      * injection Hg as <-. tinv E. repeat miss. hit. rewrite mk_eq. apply RT_ok; [lia|].
         split; [reflexivity|]. split; [lia|]. split; [den_side|]. split; [eexists _, _, _; reflexivity|].
         split; [shape_ev|]. rewrite view_node. apply flat_exp_other; reflexivity.
-      * tinv Hg. repeat miss. hit. rewrite mk_eq. apply RT_ok.
+      * tinv Hg. repeat miss. hit. rewrite mk_eq. apply RT_ok; [lia|].
         split; [reflexivity|]. split; [lia|]. split; [den_side|]. split; [eexists _, _, _; reflexivity|].
         split; [shape_ev|]. rewrite view_node. apply flat_exp_other; reflexivity.
     + pose proof (CTX_sh ts _ _ _ _ _ _ HC eq_refl) as ->. pose proof HC as HC'. apply CTX_node in HC'. ctx_split HC'.
       eapply Hpre; [exact Hg | eassumption | reflexivity | reflexivity | reflexivity].
-  - open_node. gmatch Hg; tinv Hg; repeat miss; hit; rewrite mk_eq; apply RT_ok;
+  - open_node. gmatch Hg; tinv Hg; repeat miss; hit; rewrite mk_eq; (apply RT_ok; [lia|]);
       (split; [reflexivity|]; split; [lia|]; split; [den_side|]; split; [eexists _, _, _; reflexivity|];
        split; [shape_ev|]; rewrite view_node; apply flat_exp_other; reflexivity).
 Qed.
@@ -979,7 +981,7 @@ Proof. intros Hb. rewrite !views_cons, Hb. reflexivity. Qed.
 
 Lemma L_exp_term_chain p mx n items s' : G' p -> g_chain n true true items (SS p) = Some s' -> CTXL items mx ->
   follow fexp mx s' ->
-  RT (exp_term (p, mx)) mx (fun t p' => p < p' /\ isnode t p' /\ exp_shape t /\
+  RT ts (exp_term (p, mx)) mx (fun t p' => p < p' /\ isnode t p' /\ exp_shape t /\
        (forall x, items = [x] -> den x t = true) /\
        exists items1 items2 m, items = items1 ++ items2 /\ items1 <> [] /\ all2d items1 (flat_exp (view t)) = true /\
                                g_chain m false true items2 (SS p') = Some s').
@@ -987,13 +989,13 @@ Proof.
   intros HG Hg HC Hf. destruct n; [discriminate|]. cbn [g_chain] in Hg. destruct items as [|x r]; [discriminate|].
   apply CTXL_cons in HC. destruct HC as [HCx HCr].
   assert (Hop : (s <~ g_operand n x (SS p) ;; g_chain n false true r s) = Some s' ->
-    RT (exp_term (p, mx)) mx (fun t p' => p < p' /\ isnode t p' /\ exp_shape t /\
+    RT ts (exp_term (p, mx)) mx (fun t p' => p < p' /\ isnode t p' /\ exp_shape t /\
        (forall x0, x :: r = [x0] -> den x0 t = true) /\
        exists items1 items2 m, x :: r = items1 ++ items2 /\ items1 <> [] /\ all2d items1 (flat_exp (view t)) = true /\
                                g_chain m false true items2 (SS p') = Some s')).
   { clear Hg. intros Hg. osplit Hg E.
     eapply RT_conseq; [eapply L_exp_term_operand; [exact HG | exact E | exact HCx | eapply chain_rest_follow; eassumption]|].
-    cbv beta. intros t1 p1 (Q1 & Q2 & Q3 & Q4 & Q5 & Q6). subst s. split; [exact Q2|]. split; [exact Q4|]. split; [exact Q5|].
+    cbv beta. intros t1 p1 Hl_p1 (Q1 & Q2 & Q3 & Q4 & Q5 & Q6). subst s. split; [exact Q2|]. split; [exact Q4|]. split; [exact Q5|].
     split; [intros x0 [= <- _]; exact Q3|]. exists [x], r, n. split; [reflexivity|]. split; [discriminate|]. split; [|exact Hg].
     rewrite Q6. rewrite all2d_cons. rewrite (denotes_not_hidden _ _ Q3). unfold den in Q3. rewrite Q3. reflexivity. }
   destruct x as [| i0 t0 | | | | | | |]; try (apply Hop, Hg). clear Hop.
@@ -1009,8 +1011,8 @@ Proof.
   rewrite (bind_accept_first_hit ts lua_unops _ p mx i0 t _ lua_unops_nt Hp0 Hs Hlim
              ltac:(eapply anyof_sub; [|exact Hu]; vm_compute; reflexivity)). cbv beta iota zeta.
   eapply RT_bind; [eapply (c_exp _ _ HR); [gd | exact Hg | exact HCr | exact Hf]|].
-  cbv beta. intros e p1 (Q1 & Q2 & Q3 & Q4 & Q5 & Q6). destruct (isnode_facts _ _ Q5) as (Qh & Qn & _).
-  rewrite bind_assert by exact Qn. rewrite mk_eq. apply RT_ok.
+  cbv beta. intros e p1 Hl_p1 (Q1 & Q2 & Q3 & Q4 & Q5 & Q6). destruct (isnode_facts _ _ Q5) as (Qh & Qn & _).
+  rewrite bind_assert by exact Qn. rewrite mk_eq. apply RT_ok; [lia|].
   split; [lia|]. split; [eexists _, _, _; reflexivity|]. split; [shape_no|].
   split; [intros x0 [= <- E0]; subst r; destruct n; discriminate Hg|].
   exists (Tok i0 t0 :: r), [], 1%nat. split; [rewrite app_nil_r; reflexivity|]. split; [discriminate|].
@@ -1028,7 +1030,7 @@ Proof.
   - injection Hg as <-.
     rewrite (bind_accept_first_miss ts fexp lua_binops _ p mx lua_binops_nt Hp0 Hf
                ltac:(intros k0 H0; eapply nomatch_sub; [|exact H0]; vm_compute; reflexivity)). cbv beta iota zeta.
-    prim. rewrite ret_eq. apply RT_ok. split; [reflexivity|]. split; [lia|].
+    prim. rewrite ret_eq. apply RT_ok; [lia|]. split; [reflexivity|]. split; [lia|].
     split; [exists []; split; [rewrite app_nil_r; reflexivity | reflexivity]|]. split; [reflexivity|]. split; assumption.
   - osplit Hg E. apply CTXL_cons in HC. destruct HC as [HCb HCr].
     apply tokp_inv in E. destruct E as (i & t0 & t & -> & Hs & Hu). rewrite is_binop_anyof in Hu.
@@ -1036,11 +1038,11 @@ Proof.
     rewrite (bind_accept_first_hit ts lua_binops _ p mx i t _ lua_binops_nt Hp0 Hs Hlim
                ltac:(eapply anyof_sub; [|exact Hu]; vm_compute; reflexivity)). cbv beta iota zeta.
     eapply RT_bind; [eapply L_exp_term_chain; [gd | exact Hg | exact HCr | exact Hf]|].
-    cbv beta. intros t1 p1 (Q1 & Q2 & Q3 & Q4 & items1 & items2 & m & -> & Q5 & Q6 & Q7).
+    cbv beta. intros t1 p1 Hl_p1 (Q1 & Q2 & Q3 & Q4 & items1 & items2 & m & -> & Q5 & Q6 & Q7).
     destruct (isnode_facts _ _ Q2) as (Qh & Qn & _). rewrite bind_assert by exact Qn. prim.
     apply CTXL_app in HCr. destruct HCr as [HC1 HC2]. destruct (isnode_facts _ _ Hnode) as (Fh & Fn & _).
     eapply RT_conseq; [eapply (c_binop _ _ HR (Node tExpBinOp p p1 false [first; Tok i t; t1])); [gd | exact Q7 | exact HC2 | exact Hf | eexists _, _, _; reflexivity | shape_no]|].
-    cbv beta. intros t2 p2 (Q8 & Q9 & (ys & Q10 & Q11) & Q12 & Q13 & Q14).
+    cbv beta. intros t2 p2 Hl_p2 (Q8 & Q9 & (ys & Q10 & Q11) & Q12 & Q13 & Q14).
     split; [exact Q8|]. split; [lia|]. split; [|split; [discriminate | split; assumption]].
     rewrite view_node, views3, flat_exp_binop in Q10 by assumption.
     exists (Tok i t :: flat_exp (view t1) ++ ys). split; [rewrite Q10, <- app_assoc; reflexivity|].
@@ -1057,11 +1059,11 @@ Lemma L_exp : exp_ok G' (exp_def ts lua_binops lua_unops R).
 Proof.
   intros p mx n items s' HG Hg HC Hf. unfold exp_def.
   eapply RT_bind; [eapply L_exp_term_chain; [exact HG | exact Hg | exact HC | exact Hf]|].
-  cbv beta. intros t1 p1 (Q1 & Q2 & Q3 & Q4 & items1 & items2 & m & -> & Q5 & Q6 & Q7).
+  cbv beta. intros t1 p1 Hl_p1 (Q1 & Q2 & Q3 & Q4 & items1 & items2 & m & -> & Q5 & Q6 & Q7).
   destruct (isnode_facts _ _ Q2) as (Qh & Qn & _). rewrite Qn.
   apply CTXL_app in HC. destruct HC as [HC1 HC2]. destruct HG as [Hp0 HGk].
   eapply RT_conseq; [eapply (L_binop t1); [gd | exact Q7 | exact HC2 | exact Hf | exact Q2 | exact Q3]|].
-  cbv beta. intros t2 p2 (Q8 & Q9 & (ys & Q10 & Q11) & Q12 & Q13 & Q14).
+  cbv beta. intros t2 p2 Hl_p2 (Q8 & Q9 & (ys & Q10 & Q11) & Q12 & Q13 & Q14).
   split; [exact Q8|]. split; [lia|]. split; [unfold ditems; rewrite Q10; apply all2d_app; assumption|].
   split; [|split; assumption]. intros x Hx. pose proof (app_single _ _ _ Hx Q5) as ->. rewrite (Q12 eq_refl).
   apply Q4. exact Hx.
